@@ -1340,7 +1340,11 @@ func (h *w1Harness) main() {
 	if simrt.Aborted() {
 		return
 	}
+	// faults stop here (no more stalled clocks, no more delayed goroutines); the final checks
+	// run after the quiet period, once everything in flight has been digested
+	simrt.Calm()
 	time.Sleep(time.Duration(h.body.TailMs) * time.Millisecond)
+	simrt.Settle()
 	simrt.Rec("epilogue", "", "", 0, 0, 0)
 	h.finalChecks()
 	simrt.Rec("shutdown.call", "", "", 0, 0, 0)
